@@ -31,8 +31,8 @@ TECHNIQUE = "explicit-state BFS over run-folder states (transition = real map(fi
 RULE = ("pipelines {elementwise chain, 2-D outer product chain, tuple-output zip, internal axis + partial reduction, partial reduction over the other axis, two zipped roots then an outer product with another axis of another size (quick: learners and rejections only), independent "
         "non-mapped function} x storage {file_array, dict+persist} x selectors = every int in [-n,n) and every slice over start/stop in {None,-n..n} x step in {None,+-1,+-2} "
         "with a non-empty selection (deduplicated to distinct index sequences, two spellings each); BFS states = sets of present elements; for two independent axes the "
-        "product of their selectors. Learners: fixed_indices None/each selector class, split_independent_axes F/T, return_output F/T, all unit orders within a generation "
-        "(<= 4 units: all permutations; more: identity, reversal and all rotations). Rejections: reduced axis, unknown axis, out-of-range int. Part D: for three pipelines x {shared_memory_dict, file_array} the two pieces of the first axis, in both orders, on a REAL process pool (one free-running schedule each)")
+        "product of their selectors. Learners: fixed_indices None/each selector class (for two pipelines also with resources_scope=element: one learner per element), split_independent_axes F/T, return_output F/T, all unit orders within a generation "
+        "(<= 4 units: all permutations; more: identity, reversal and all rotations). Rejections: reduced axis, unknown axis, out-of-range int; and with output_names = the outputs of one function: an axis the selected sub-pipeline does not have (reject) / an axis that only a function outside it reduces (accept, exactly the selected calls). Part D: for three pipelines x {shared_memory_dict, file_array} the two pieces of the first axis, in both orders, on a REAL process pool (one free-running schedule each)")
 ASSUMPTIONS = ["reference = MapSpec denotation (vmc/gen_map.py) restricted to the selected external indices",
                "learners are executed through learner.ask/tell with the learner's own function, as adaptive's simple runner does, but in every order",
                "learner runs use file_array storage (memory storages are only persisted by run_map itself)"]
@@ -127,14 +127,17 @@ def linear(spec, fn, idx):
     return int(np.ravel_multi_index(idx, shape)) if ax else 0
 
 
-def run_map(spec, folder, storage, fixed=None, cleanup=False):
+def run_map(spec, folder, storage, fixed=None, cleanup=False, output_names=None, sub=None):
     p = gen_map.build(spec)
     inputs = gen_map.make_inputs(spec, "list")
+    if sub is not None:  # only the root inputs of the selected sub-pipeline (a surplus input is rejected)
+        inputs = {r: v for r, v in inputs.items() if any(r in fn["params"] for fn in sub)}
     terms.LOG.clear()
     with contextlib.redirect_stdout(io.StringIO()), warnings.catch_warnings():
         warnings.simplefilter("ignore")
         r = p.map(dict(inputs), run_folder=folder, internal_shapes=gen_map.internal_shapes_arg(spec), parallel=False, storage=storage,
-                  cleanup=cleanup, fixed_indices={a: sel_from(s) for a, s in fixed.items()} if fixed else None)
+                  cleanup=cleanup, fixed_indices={a: sel_from(s) for a, s in fixed.items()} if fixed else None,
+                  **({"output_names": set(output_names)} if output_names else {}))
     return r, list(terms.LOG)
 
 
@@ -382,6 +385,10 @@ def expand_state(cfg, hist, acc, rich):
 # ------------------------------------------------------------------------------------------------
 # Part B: learners
 # ------------------------------------------------------------------------------------------------
+# resources declared per ELEMENT: create_learners then makes one learner per element (_split_sequence_learner)
+_ELEMENT_SCOPE = {"resources": {"cpus": 1}, "resources_scope": "element"}
+
+
 def orders(n, full):
     ident = tuple(range(n))
     if n <= (4 if not full else 5):
@@ -403,7 +410,7 @@ def run_learners(cfg, order_choice):
     try:
         inputs = gen_map.make_inputs(spec, "list")
         exp, calls = gen_map.ref_map(spec, inputs)
-        p = gen_map.build(spec)
+        p = gen_map.build(spec, pf_kwargs=_ELEMENT_SCOPE if cfg.get("element_scope") else None)
         fixed = {a: sel_from(s) for a, s in (cfg.get("fixed") or {}).items()} or None
         terms.LOG.clear()
         try:
@@ -476,7 +483,7 @@ def learner_orders(cfg):
     spec = PIPES[cfg["pipe"]]
     base = boot.mkscratch("c06o-")
     try:
-        p = gen_map.build(spec)
+        p = gen_map.build(spec, pf_kwargs=_ELEMENT_SCOPE if cfg.get("element_scope") else None)
         fixed = {a: sel_from(s) for a, s in (cfg.get("fixed") or {}).items()} or None
         with contextlib.redirect_stdout(io.StringIO()), warnings.catch_warnings():
             warnings.simplefilter("ignore")
@@ -511,6 +518,58 @@ def rejection_cases(pipe):
         cases.append(({a: k}, "out-of-range"))
         cases.append(({a: -k - 1}, "out-of-range"))
     return cases
+
+
+def output_name_cases(pipe):
+    """fixed_indices together with output_names=S (S = the outputs of ONE function): the request is judged against the
+    sub-pipeline that is actually run -> [(S, fixed, 'reject'|'accept', why, sub-functions)]"""
+    spec = PIPES[pipe]
+    prod = {o: fn for fn in spec["funcs"] for o in fn["outs"]}
+    cases = []
+    all_axes = sorted({a for fn in spec["funcs"] if fn["ms"] for a in ext_axes(fn)})
+    for target in spec["funcs"]:
+        need, stack = [], [target]
+        while stack:
+            fn = stack.pop()
+            if fn in need:
+                continue
+            need.append(fn)
+            stack.extend(prod[p_] for p_ in fn["params"] if p_ in prod)
+        if len(need) == len(spec["funcs"]):
+            continue  # the whole pipeline: parts A and C
+        sub = [fn for fn in spec["funcs"] if fn in need]
+        named = {a for fn in sub if fn["ms"] for axes in fn["ms"].values() for a in axes if a} | {a for fn in sub if fn["ms"] for a in ext_axes(fn)}
+        reduced_in_sub = {a for fn in sub if fn["ms"] for p_, axes in fn["ms"].items() if p_ in prod for a in ext_axes(prod[p_]) if a not in axes}
+        reduced_in_sub |= {a for fn in sub if not fn["ms"] for p_ in fn["params"] if p_ in prod for a in ext_axes(prod[p_])}
+        for a in all_axes:
+            if a not in named:
+                cases.append((target["outs"], {a: 0}, "reject", "axis-not-in-selected-subpipeline", sub))
+            elif a not in reduced_in_sub and all(a in ext_axes(fn) for fn in sub if fn["ms"] and a in ext_axes(target)):
+                if a in spec.get("reduced", []) or a in spec["axes"]:
+                    cases.append((target["outs"], {a: 0}, "accept", "axis-free-in-selected-subpipeline", sub))
+    return cases
+
+
+def check_output_names(cfg, outs, fixed, expect, why, sub):
+    spec = PIPES[cfg["pipe"]]
+    base = boot.mkscratch("c06r-")
+    sig = {"why": why, "pipe": cfg["pipe"], "part": "C", "with_output_names": True}
+    try:
+        try:
+            _, log = run_map(spec, os.path.join(base, "run"), cfg["storage"], fixed, cleanup=True, output_names=outs, sub=sub)
+        except Exception as e:  # noqa: BLE001
+            if expect == "reject":
+                return []
+            return [(findings.exc_sig(e, **sig), f"{cfg}: map(output_names={outs}, fixed_indices={fixed}) is valid for the selected sub-pipeline but raised {type(e).__name__}: {str(e)[:120]}")]
+        if expect == "reject":
+            return [({"kind": "accepted-invalid-fixed-indices", **sig}, f"{cfg}: map(output_names={outs}, fixed_indices={fixed}) ({why}) was accepted; calls {log[:3]}")]
+        want = sorted(fn["name"] for fn in sub for _ in (selected(spec, fn, fixed) if fn["ms"] else [()]))
+        got = sorted(n for n, _ in log)
+        if got != want:
+            return [({"kind": "selected-calls", **sig}, f"{cfg}: map(output_names={outs}, fixed_indices={fixed}) called {got}, the selection needs {want}")]
+        return []
+    finally:
+        shutil.rmtree(base, ignore_errors=True)
 
 
 def check_rejection(cfg, fixed, why):
@@ -556,6 +615,8 @@ def plan(tier, seed):
                         continue
                     cfg = {"pipe": pipe, "split": split, "ret": ret, "fixed": fx}
                     units.append(("B-learners-all-unit-orders", ("B", cfg)))
+                    if not ret and pipe in ("chain", "outer2d"):
+                        units.append(("B-learners-all-unit-orders", ("B", {**cfg, "element_scope": True})))
     for pipe in ("chain", "outer2d", "tuple-zip"):
         for storage in ("shared_memory_dict", "file_array"):
             for rev in (False, True):
@@ -622,6 +683,14 @@ def run_unit(unit):
             acc.stratum("C-" + why)
             for sig, text in check_rejection(cfg, fixed, why):
                 acc.violation(sig, {"part": "C", "cfg": cfg, "fixed": fixed, "why": why}, text)
+        for k, (outs, fixed, expect, why, sub) in enumerate(output_name_cases(cfg["pipe"])):
+            acc.case(hash((cfg["pipe"], str(outs), str(fixed), "output_names")))
+            acc.states += 1
+            acc.transitions += 1
+            acc.traces += 1
+            acc.stratum(f"C-output_names-{expect}")
+            for sig, text in check_output_names(cfg, outs, fixed, expect, why, sub):
+                acc.violation(sig, {"part": "C", "cfg": cfg, "output_names_case": k}, text)
     return acc
 
 
@@ -629,6 +698,9 @@ def replay(art):
     if art["part"] == "A":
         vs, _ = check_part(art["cfg"], art["hist"], art["fixed"])
         return [s for s, _ in vs]
+    if art["part"] == "C" and "output_names_case" in art:
+        outs, fixed, expect, why, sub = output_name_cases(art["cfg"]["pipe"])[art["output_names_case"]]
+        return [s for s, _ in check_output_names(art["cfg"], outs, fixed, expect, why, sub)]
     if art["part"] == "D":
         return [s for s, _ in check_pool_pieces(art["cfg"])]
     if art["part"] == "B":
